@@ -107,7 +107,7 @@ M('remove-child-forgets-rr-index', 'fault', ['C02', 'C13'], ['SA-PAIR.rr_childre
 M('remove-child-forgets-recalc', 'fault', ['C17', 'C03'], ['SA-PAIR.offset_cache'],
   [(DR, "        num_extents, dirrecord_offset = self._recalculate_extents_and_offsets(index,\n                                                                              logical_block_size)\n\n        underflow = False\n        total_size = (num_extents - 1) * logical_block_size + dirrecord_offset",
     "        num_extents = self.children[-1].extents_to_here\n        dirrecord_offset = self.children[-1].offset_to_here\n\n        underflow = False\n        total_size = (num_extents - 1) * logical_block_size + dirrecord_offset")], 'remove_child')
-M('remove-forgets-cache-clear', 'fault', ['C02', 'C13'], ['SA-PAIR.removal_cache'],
+M('remove-forgets-cache-clear', 'fault', ['C01', 'C02', 'C03', 'C06', 'C07', 'C09', 'C13'], ['SA-PAIR.removal_cache'],
   [(PY, "        self._find_iso_record.cache_clear()  # pylint: disable=no-member\n        self._find_rr_record.cache_clear()  # pylint: disable=no-member\n        self._find_joliet_record.cache_clear()  # pylint: disable=no-member\n\n        # The remove_child() method returns True",
     "        self._find_iso_record.cache_clear()  # pylint: disable=no-member\n        self._find_joliet_record.cache_clear()  # pylint: disable=no-member\n\n        # The remove_child() method returns True")], '_find_rr_record')
 M('parse-link-forgets-num-udf', 'fault', ['C10', 'C04'], ['SA-PAIR.udf_link_count'],
@@ -356,6 +356,19 @@ M('twin-tool-collision-counter-bounded-loop', 'twin', ['C20', 'C18'], [],
 
 M('twin-new-bounded-counter-loop-in-parser', 'twin', ['C15'], [],
   [(PY, "        offset = 0\n        out = []\n        extent_to_ptr = {}\n", "        offset = 0\n        out = []\n        extent_to_ptr = {}\n        tries = 0\n        while tries < 3:\n            tries += 1\n")])
+
+M('rr-moved-without-ce-slot', 'fault', ['C01', 'C04', 'C08'], ['SA-PAIR.rr_ce_slot'],
+  [(PY, "        num_bytes_to_add = self._add_child_to_dr(rec)\n        num_bytes_to_add += self._update_rr_ce_entry(rec)\n\n        self._create_dot(self.pvd, rec, self.rock_ridge, self.xa, 0o040555)", "        num_bytes_to_add = self._add_child_to_dr(rec)\n\n        self._create_dot(self.pvd, rec, self.rock_ridge, self.xa, 0o040555)")], '_find_or_create_rr_moved')
+M('relocation-placeholder-without-ce-slot', 'fault', ['C01', 'C04', 'C08'], ['SA-PAIR.rr_ce_slot'],
+  [(PY, "                num_bytes_to_add += self._add_child_to_dr(fake_dir_rec)\n                num_bytes_to_add += self._update_rr_ce_entry(fake_dir_rec)\n", "                num_bytes_to_add += self._add_child_to_dr(fake_dir_rec)\n")], 'fake_dir_rec')
+M('gpt-part-guid-mixed-endian-on-parse-only', 'fault', ['C05', 'C12'], ['SA-SYM.conv'],
+  [(ISOH, "        self.part_guid = uuid.UUID(bytes=part_guid)\n", "        self.part_guid = uuid.UUID(bytes_le=part_guid)\n")], 'part_guid')
+M('twin-gpt-disk-guid-mixed-endian-both-ways', 'twin', ['C05', 'C12'], [],
+  [(ISOH, "        self.disk_guid = uuid.UUID(bytes=disk_guid)\n", "        self.disk_guid = uuid.UUID(bytes_le=disk_guid)\n"),
+   (ISOH, "                          self.disk_guid.bytes, self.partition_entries_lba,", "                          self.disk_guid.bytes_le, self.partition_entries_lba,")])
+M('cache-clear-after-early-return', 'fault', ['C01', 'C02', 'C03', 'C06', 'C07', 'C09', 'C13'], ['SA-PAIR.removal_cache'],
+  [(PY, "        self._find_iso_record.cache_clear()  # pylint: disable=no-member\n        self._find_rr_record.cache_clear()  # pylint: disable=no-member\n        self._find_joliet_record.cache_clear()  # pylint: disable=no-member\n\n", "\n"),
+   (PY, "        if child.parent.remove_child(child, index, self.logical_block_size):\n            return self.logical_block_size\n\n        return 0\n", "        if child.parent.remove_child(child, index, self.logical_block_size):\n            return self.logical_block_size\n\n        self._find_iso_record.cache_clear()  # pylint: disable=no-member\n        self._find_rr_record.cache_clear()  # pylint: disable=no-member\n        self._find_joliet_record.cache_clear()  # pylint: disable=no-member\n        return 0\n")], '_remove_child_from_dr')
 
 
 def applicable(m, sources):
